@@ -76,6 +76,7 @@ def all_fields(parent, own, i):
 def check_c14(v: Verdict, t1_summary, n_trees):
     rng = random.Random(v.seed * 7919 + 14)
     skip = bool((t1_summary.get("disambig") or {}).get("skip_noninit", True))
+    sub_flags = {"transitive": True, "anc_first": True, **(t1_summary.get("subclasses") or {})}
     intern = Interner()
     cases, meta = [], []
     hist = {"trees": 0, "auto_accepted": 0, "auto_refused": 0, "tagged": 0, "pairs_checked": 0, "forbid": 0, "fieldless_subclasses": 0,
@@ -129,11 +130,12 @@ def check_c14(v: Verdict, t1_summary, n_trees):
                 desc_pairs = [(x + 1, k + 1) for x in range(n) for k in range(n) if issubclass(classes[x], classes[k])]
                 isd = "(fun x k => existsb (fun p => N.eqb (fst p) x && N.eqb (snd p) k) [" + "; ".join(f"({x}%N, {k}%N)" for x, k in desc_pairs) + "])"
                 cases.append(("ok", f"forallb (node_ok (fun l => l) (fun l => l) {c_bool(skip)} {cl_coq} {isd}) [{'; '.join(f'{i+1}%N' for i in range(n))}]", accepted,
-                              {**desc, "strategy": strategy, "check": "accepted", "observed": accepted}))
+                              {**desc, "strategy": strategy, "check": "accepted", "observed": accepted, "tree_id": ti}))
             elif strategy == "tagged":
                 hist["tagged"] += 1
             if not accepted:
                 continue
+            tagged_obs = []
             for k in configured:
                 for x in configured:
                     if not issubclass(classes[x], classes[k]):
@@ -146,6 +148,11 @@ def check_c14(v: Verdict, t1_summary, n_trees):
                         back = conv.structure(payload, classes[k])
                     except Exception as e:
                         rp["error"] = repr(e)
+                        if strategy == "tagged":
+                            try:
+                                tagged_obs.append((k, x, conv.unstructure(inst, unstructure_as=classes[k]), 0))
+                            except Exception:
+                                pass
                         leaf = not any(j != k and issubclass(classes[j], classes[k]) for j in configured)
                         if strategy == "tagged" and forbid and leaf and "ForbiddenExtraKeysError" in repr(e) + repr(getattr(e, "exceptions", "")):
                             hist["f16_hits"] += 1
@@ -156,11 +163,35 @@ def check_c14(v: Verdict, t1_summary, n_trees):
                     if type(back) is not type(inst) or back != inst:
                         rp["payload"], rp["back"] = payload, repr(back)
                         v.violation("base-typed round trip lost the exact subclass or its attributes", rp)
+                    if strategy == "tagged":
+                        tagged_obs.append((k, x, payload, classes.index(type(back)) + 1))
                     if strategy == "auto" and not partial:
                         keys = c_list(cN(intern(kk)) for kk in payload)
                         cases.append(("res", f"auto_resolve (fun l => l) (fun l => l) {c_bool(skip)} {cl_coq} {isd} 4 {k+1}%N {keys}", classes.index(type(back)) + 1,
-                                      {**desc, "strategy": strategy, "check": "resolve", "structure_as": classes[k].__name__, "payload": payload, "observed": type(back).__name__}))
+                                      {**desc, "strategy": strategy, "check": "resolve", "structure_as": classes[k].__name__, "payload": payload, "observed": type(back).__name__, "tree_id": ti}))
                     v.count(repr((ti, strategy, k, x)), n >= 3)
+            if strategy == "tagged" and tagged_obs:
+                # ---- model of the two-pass registration (Model/SubUnion.v): payload emitted, and the class whose first-pass hook runs
+                order = ([0] + [classes.index(c) for c in kwargs["subclasses"]]) if "subclasses" in kwargs else list(range(n))
+                isd = "(fun x k => existsb (fun p => N.eqb (fst p) x && N.eqb (snd p) k) [" + "; ".join(
+                    f"({x + 1}%N, {k + 1}%N)" for x in range(n) for k in range(n) if issubclass(classes[x], classes[k])) + "])"
+                isc = "(fun x k => existsb (fun p => N.eqb (fst p) x && N.eqb (snd p) k) [" + "; ".join(
+                    f"({x + 1}%N, {parent[x] + 1}%N)" for x in range(n) if parent[x] is not None) + "])"
+                flds = "(fun c => " + " ".join(f"if N.eqb c {i + 1}%N then {c_list(cN(intern(nm)) for nm, _ in all_fields(parent, own, i))} else" for i in range(n)) + " [])"
+                tn = cN(intern("_type"))
+                hd = (f"N {c_list(cN(i + 1) for i in order)} {isd} {isc} (fun c => (200000 + c)%N) {tn} {c_bool(forbid)}")
+                for k, x, payload, got_cls in tagged_obs:
+                    own_d = [(kk, vv) for kk, vv in payload.items() if kk != "_type"]
+                    own_coq = c_list(f"({cN(intern(kk))}, {vv}%N)" for kk, vv in own_d)
+                    pay_coq = c_list(f"({cN(intern(kk))}, {(vv if isinstance(vv, int) else 200000 + 1 + [c.__name__ for c in classes].index(vv))}%N)" for kk, vv in payload.items())
+                    mu = f"un_sub {hd} {flds} {c_bool(sub_flags['transitive'])} {k + 1}%N {x + 1}%N {own_coq}"
+                    cases.append(("raw", f"(match {mu} with Ok d => if pay_eqb d {pay_coq} then 1%N else 0%N | _ => 0%N end)", 1,
+                                  {**desc, "strategy": strategy, "check": "union-strategy payload", "structure_as": classes[k].__name__, "instance_class": classes[x].__name__, "payload": payload}))
+                    ms = (f"st_sub N N.eqb {c_list(cN(i + 1) for i in order)} {isd} {isc} (fun c => (200000 + c)%N) {tn} {c_bool(forbid)} "
+                          f"{c_bool(sub_flags['transitive'])} {c_bool(sub_flags['anc_first'])} {k + 1}%N {pay_coq}")
+                    cases.append(("raw", f"(match {ms} with Ok (c, d) => if {c_bool(forbid)} && mem_N {tn} (keys d) then 0%N else c | _ => 0%N end)", got_cls,
+                                  {**desc, "strategy": strategy, "check": "union-strategy class reached", "structure_as": classes[k].__name__, "payload": payload,
+                                   "observed": (classes[got_cls - 1].__name__ if got_cls else "raised")}))
         if len(v.samples) < 3:
             v.samples.append(desc)
     c14_order_battery(v, hist)
@@ -170,14 +201,19 @@ def check_c14(v: Verdict, t1_summary, n_trees):
     for kind, term, obs, m in cases:
         if kind == "ok":
             texts.append(f"(if {term} then 1%N else 0%N, {1 if obs else 0}%N, true)")
+        elif kind == "raw":
+            texts.append(f"({term}, {obs}%N, false)")
         else:
             texts.append(f"(match {term} with Ok c => c | _ => 0%N end, {obs}%N, false)")
         metas.append(m)
     bad = []
     soft = 0
+    soft_trees = set()        # trees whose ACCEPTANCE differs between the model's member order and the real (hash) order: finding F23
     shard = 250
     for k in range(0, len(texts), shard):
-        src = ("From V.Model Require Import Base Disambig Subclasses.\nDefinition cs : list (N * N * bool) := [\n" + ";\n".join(texts[k:k + shard]) + "\n].\n"
+        src = ("From V.Model Require Import Base Disambig Subclasses Tagged SubUnion.\n"
+               "Definition pay_eqb (a b : list (N * N)) : bool := Nat.eqb (length a) (length b) && forallb (fun kv => match assoc b (fst kv) with Some x => N.eqb x (snd kv) | None => false end) a.\n"
+               "Definition cs : list (N * N * bool) := [\n" + ";\n".join(texts[k:k + shard]) + "\n].\n"
                "Fixpoint bad (k : nat) (l : list (N * N * bool)) : list nat := match l with [] => [] | (a, b, _) :: r => if N.eqb a b then bad (S k) r else k :: bad (S k) r end.\n"
                "Eval vm_compute in (bad 0 cs).\n")
         rc, out = run_cases_file(f"c14_{v.seed}_{k}", src)
@@ -190,10 +226,14 @@ def check_c14(v: Verdict, t1_summary, n_trees):
                 idx = k + int(x)
                 if metas[idx]["check"] == "accepted":
                     soft += 1
+                    soft_trees.add(metas[idx].get("tree_id"))
                 else:
                     bad.append(idx)
+    # where the model (evaluated for the tree's own order) could not build a disambiguator but the implementation (set order) could,
+    # the model has no answer for that tree's payloads either: those follow-up mismatches are the same order dependence, not new ones
+    bad = [i for i in bad if not (metas[i].get("check") == "resolve" and metas[i].get("tree_id") in soft_trees)]
     hist["model_success_mismatch_order_dependent"] = soft
-    v.obligation("correspondence:SUB/C14 (automatic variant: the class every payload is handed to, model = implementation)", not bad,
+    v.obligation("correspondence:SUB/C14 (automatic variant: the class every payload is handed to; union strategy: payload emitted and class whose first-pass hook runs; model = implementation)", not bad,
                  "" if not bad else f"{len(bad)} disagree, first: {metas[bad[0]]}")
     v.coverage["input_distribution"] = hist
 
